@@ -129,11 +129,35 @@ def r1_concrete_tags(ctx):
                 rows += 1
                 vp = op_place(st["rv"]["op"])
                 srcs = tfl.sources(vp["l"]) if vp else []
-                direct = bool(srcs) and all(x[0] == "call" and (x[2].get("callee") or "").endswith("compatibility::compute_compatible_concrete_types") for x in srcs)
+                CCT = "compatibility::compute_compatible_concrete_types"
+                direct = bool(srcs) and all(x[0] == "call" and (x[2].get("callee") or "").endswith(CCT) for x in srcs)
                 same = False
+                ib = tfl.backward({idx["l"]}) if idx else set()
                 if direct and idx:
-                    ib = tfl.backward({idx["l"]})
                     same = all(op_place(x[2]["args"][0]) and (tfl.backward({op_place(x[2]["args"][0])["l"]}) & ib) for x in srcs)
+                if not direct and srcs and idx and all(x[0] == "call" and (x[2].get("callee") or "").split("::")[-1] in ("call_mut", "call", "call_once") for x in srcs):
+                    # memoised form (as compute_param_compatibility does): `compatible_for(p)` where the closure computes cct(<its argument>) once per id
+                    okm = True
+                    for x in srcs:
+                        cp = tfl0.canon_op(x[2]["args"][0]) or tfl.canon_op(x[2]["args"][0])
+                        ck = None
+                        for _b5, _s5, st5 in tcb.stmts():
+                            if cp and st5["k"] == "assign" and st5["p"]["l"] == cp[0] and st5["rv"].get("closure"):
+                                ck = st5["rv"]["closure"]
+                        argp = op_place(x[2]["args"][1]) if len(x[2]["args"]) > 1 else None
+                        arg_ok = bool(argp) and bool(tfl.backward({argp["l"]}) & ib)
+                        calls_cct = False
+                        adaptors = False
+                        if ck:
+                            for k2 in [ck] + [k3 for k3 in F.fns if k3.startswith(ck + "::{closure")]:
+                                for _b6, t6 in F.body(k2).calls():
+                                    c6 = t6.get("callee") or ""
+                                    if c6.endswith(CCT):
+                                        calls_cct = True
+                                    if c6.split("::")[-1] in ("flat_map", "collect", "extend", "union", "chain", "fold"):
+                                        adaptors = True
+                        okm = okm and bool(ck) and arg_ok and calls_cct and not adaptors
+                    direct = same = okm
                 ctx.check(direct and same, R, tcb.key + "|row=cct(row)", "type_compatibility[p] is the result of compute_compatible_concrete_types(p, ..) for the same p",
                           "a row of the IsType table is no longer compute_compatible_concrete_types(<that pattern id>) itself (sources: %s): assembling it from "
                           "parts decides the relation without the whole pattern type on the cycle stack" % sorted({(x[2].get("callee") or x[0]).split("::")[-1] if x[0] == "call" else x[0] for x in srcs}),
